@@ -21,6 +21,8 @@ def run(prop, tier, seed):
         sets = [("chain", "ShapesChain", "DeclsQ", "RootQ", "DeclsQ"), ("diam", "ShapesDiamond", "DeclsQD", "RootQ", "RootQ")]
     else:
         sets = [("chain", "ShapesChain", "DeclsT", "DeclsT", "DeclsT"), ("diam", "ShapesDiamond", "DeclsT", "RootQ", "DeclsQ")]
+    sets += [("meta", "ShapesAll" if not quick else "ShapesChain", "DeclsM", "DeclsM", "DeclsM"),
+             ("inst", "ShapesAll" if not quick else "ShapesChain", "DeclsI", "DeclsI", "DeclsI")]
     props, gens = [], []
     for n, sh, d, r, l in sets:
         props.append({"module": M, "cfg": "C11_p%s.cfg" % n, "extra_defs": {"C11_p%s.cfg" % n: cfg(sh, d, r, l, False)}})
@@ -31,5 +33,5 @@ def run(prop, tier, seed):
     return pipeline.finish(prop, tier, seed, t0, [pst, rst], exhaustive=True,
                            rule="one case = one hierarchy (shape x declaration per class), built with type() and again with add_parameter; non-trivial when some class redeclares the Parameter leaving at least one attribute unspecified",
                            assumptions=["shapes: chain of 3, chain with a skipping class, diamond D(B,C) and D(C,B) over a common root",
-                                        "declarations from a curated set of 18 (Parameter/Number/Integer/String x default/bounds/doc/constant/allow_None/instantiate specified or not); declarations whose own constructor raises are outside the domain",
-                                        "every attribute compared: default, bounds, doc, constant, allow_None, instantiate, Parameter type, and whether class creation raised"])
+                                        "declarations from a curated set of 21 (plus 9 that exercise the remaining metadata attributes -- label, precedence, pickle_default_value, allow_refs, nested_refs, per_instance, step, softbounds -- and 10 with instantiate=True ancestors across type changes) (Parameter/Number/Integer/String x default/bounds/doc/constant/allow_None/instantiate specified or not); declarations whose own constructor raises are outside the domain",
+                                        "every attribute compared: default, bounds, inclusive_bounds, doc, constant, allow_None, instantiate, label, precedence, pickle_default_value, allow_refs, nested_refs, per_instance, step, softbounds, Parameter type, and whether class creation raised"])
